@@ -98,7 +98,7 @@ class Tok:
 
 
 class Concretiser:
-    def __init__(self, seed=0, lookalikes=False, ascii_only=False, no_multiline=False, avoid_quote=None, bare_strings=False):
+    def __init__(self, seed=0, lookalikes=False, ascii_only=False, no_multiline=False, avoid_quote=None, bare_strings=False, strings=None):
         self.rng = random.Random(seed)
         r = self.rng
 
@@ -109,6 +109,8 @@ class Concretiser:
         sp = list(STR_POOL)
         if bare_strings:      # only contents that may also be written as an unquoted bare word
             sp = [("roads", ""), ("Layer_1", ""), ("a-b:c", ""), ("\u00c4pfel", "n"), ("circle", ""), ("my_font", ""), ("x1", "")]
+        if strings is not None:      # a caller-chosen pool (targeted probes)
+            sp = [(x, "") for x in strings]
         if ascii_only:
             sp = [x for x in sp if "n" not in x[1]]
         if no_multiline:
